@@ -133,6 +133,8 @@ def mut_case(names):
     @st.composite
     def f(draw, tier):
         init = draw(bits_st(max_len=150))
+        if names in c03.BIG_FAMILIES and draw(st.integers(0, 11)) == 0:
+            return {'cls': draw(mcls_st), 'init': draw(c03.big_init()), 'steps': [draw(c03.op_st(names))]}
         if names == ['byteswap'] and draw(st.booleans()):
             init = draw(bits_of_len(8 * draw(st.integers(0, 20)) + draw(st.sampled_from([0, 0, 1, 7]))))
         nsteps = 1 if draw(st.integers(0, 3)) else draw(st.integers(2, 6))
